@@ -47,6 +47,9 @@ fn got_hash(m: &M) -> String {
     format!("{:016x}", fnv(format!("{i}:{data}").as_bytes()))
 }
 
+/// how long a receiver waits for the next frame before reporting `err:timeout`
+const RECV_TIMEOUT: Duration = Duration::from_secs(8);
+
 async fn send_all<S: zlink_core::connection::Socket>(w: &mut zlink_core::connection::WriteConnection<S::WriteHalf>, sizes: &[usize]) {
     for (i, &n) in sizes.iter().enumerate() {
         let c = Call::new(M::Blob { i: i as u32, data: payload(n, i) });
@@ -82,10 +85,15 @@ fn xfer_tokio(sa: &[usize], sb: &[usize], slow: u8) -> (Vec<String>, Vec<String>
                 if slow {
                     tokio::time::sleep(Duration::from_millis(2)).await;
                 }
-                match r.receive_call::<M>().await {
-                    Ok(c) => out.push(got_hash(c.method())),
-                    Err(e) => {
+                // a frame that does not come within RECV_TIMEOUT is an observation (`err:timeout`), not a hang
+                match tokio::time::timeout(RECV_TIMEOUT, r.receive_call::<M>()).await {
+                    Ok(Ok(c)) => out.push(got_hash(c.method())),
+                    Ok(Err(e)) => {
                         out.push(format!("err:{e:?}").replace(' ', "_"));
+                        break;
+                    }
+                    Err(_) => {
+                        out.push("err:timeout".into());
                         break;
                     }
                 }
@@ -119,10 +127,19 @@ fn xfer_smol(sa: &[usize], sb: &[usize], slow: u8) -> (Vec<String>, Vec<String>)
                 if slow {
                     async_io::Timer::after(Duration::from_millis(2)).await;
                 }
-                match r.receive_call::<M>().await {
-                    Ok(c) => out.push(got_hash(c.method())),
-                    Err(e) => {
+                let res = futures_lite::future::or(async { Some(r.receive_call::<M>().await.map(|c| got_hash(c.method()))) }, async {
+                    async_io::Timer::after(RECV_TIMEOUT).await;
+                    None
+                })
+                .await;
+                match res {
+                    Some(Ok(h)) => out.push(h),
+                    Some(Err(e)) => {
                         out.push(format!("err:{e:?}").replace(' ', "_"));
+                        break;
+                    }
+                    None => {
+                        out.push("err:timeout".into());
                         break;
                     }
                 }
